@@ -38,7 +38,7 @@ ID = "C20"
 LEVEL = "exploration"
 RULE = ("cases are histories [init lines, tag filter, op list] over a pool of databases, compared "
         "with a reference relation after every step; enumerated: every op sequence of length 1..3 "
-        "(quick) / 1..4 (thorough) over a 16-operation alphabet (each derivation kind + 4 inserts) x "
+        "(quick) / 1..4 (thorough) over a 17-operation alphabet (each derivation kind + 4 inserts + a second read) x "
         "target index 0..position on one fixed 3-package collection; generated: 0..8 initial packages "
         "in single- and multi-package lines (distinct names of 1..6 characters; one-character names in "
         "about half of the positions and exclusively in a quarter of the histories), 14 facet::tag "
@@ -310,6 +310,26 @@ class Interp(object):
         self.settle(e, rel.read(model_lines, allowed), None, rel.read(model_lines, allowed), "read")
         return e
 
+    def do_reread(self, e, entries, flt):
+        """read() into a database that already holds a collection: "Read the database from a file"
+        - afterwards it holds what the text says (that is also what the code does: both indexes are
+        rebound).  Views that shared sets with the old content are retired; whatever is derived
+        from the database from now on must reflect the new content."""
+        lines = clean_lines(entries, self.labels)
+        allowed = None if flt is None else set(strs(flt))
+        text = [line_of(p, t, s) for p, t, s in lines]
+        if allowed is None:
+            e.db.read(iter(text))
+        else:
+            e.db.read(iter(text), lambda t: t in allowed)
+        for o in self.live():
+            if o is not e and o.find() is e.find():
+                o.live = False
+        model_lines = [(p, t) for p, t, _ in lines if p]
+        self.settle(e, rel.read(model_lines, allowed), None, rel.read(model_lines, allowed), "reread")
+        self.labels.add("op:read-into-existing-db")
+        return e
+
     def do_insert(self, e, pkg, tags):
         if not isinstance(pkg, str) or not pkg or pkg in e.S.fwd or pkg in e.T.fwd:
             self.labels.add("note:insert-skipped-existing-name")
@@ -433,6 +453,10 @@ class Interp(object):
             self.labels.add("op:read-into-pool")
             self.verify_others(e, "read")
             return e
+        if name == "reread":
+            e = self.do_reread(self.target(arg(1)), arg(2), arg(3))
+            self.verify_others(e, "reread")
+            return e
         if name == "insert":
             return self.do_insert(self.target(arg(1)), arg(2), arg(3)) or None
         if name in SHARING or name in COPYING:
@@ -487,6 +511,7 @@ ENUM_OPS = [
     ["filter_tags", ["f::a", "p"]], ["filter_tags_copy", ["f::a", "p"]],
     ["insert", "n", ["f::a"]], ["insert", "nn", ["g::b", "h::c"]], ["insert", "f::n", ["p"]],
     ["insert", "g::n", ["s"]],      # in a reversed view: a new item under one of the two packages of a line
+    ["reread", [[["p"], ["h::c"], 0], [["u"], ["f::a"], 0]], None],   # read() into a database that holds something
 ]
 
 
@@ -559,8 +584,9 @@ op_d2 = st.tuples(st.sampled_from(["filter_packages_tags", "filter_packages_tags
                   st.lists(st.one_of(ANY, st.sampled_from(TAGS)), max_size=3), tsel)
 op_d3 = st.tuples(st.sampled_from(["filter_tags", "filter_tags_copy"]), IDX, tsel)
 op_read = st.tuples(st.just("read"), read_lines, tag_filter)
+op_reread = st.tuples(st.just("reread"), IDX, read_lines, tag_filter)
 any_op = st.one_of(op_insert, op_insert, op_insert, op_insert, op_insert, op_insert, op_insert,
-                   op_d0, op_d0, op_d0, op_d0, op_facet, op_d1, op_d1, op_d2, op_d3, op_d3, op_read)
+                   op_d0, op_d0, op_d0, op_d0, op_facet, op_d1, op_d1, op_d2, op_d3, op_d3, op_read, op_reread)
 
 
 def resolve_case(mode, names, init, flt, ops):
@@ -609,6 +635,13 @@ def resolve_case(mode, names, init, flt, ops):
                 seen.update(pk)
                 rl.append([pk, sorted(tags), style])
             op = ["read", rl, None if op[2] is None else sorted(op[2])]
+        elif op[0] == "reread":
+            seen, rl = set(), []
+            for pk, tags, style in op[2]:
+                pk = [p for p in refs(pk) if p not in seen]
+                seen.update(pk)
+                rl.append([pk, sorted(tags), style])
+            op = ["reread", op[1], rl, None if op[3] is None else sorted(op[3])]
         elif len(op) == 3:
             op = [op[0], op[1], refs(op[2])]
         elif len(op) == 4:
